@@ -113,6 +113,29 @@ func evalC19Match(w *fw.W, val, aux string) {
 	w.Outcome(fw.Hash(aux) & 0xff)
 }
 
+// longDigitRefs: references whose digit run crosses the widths of 32- and 64-bit accumulators.
+func longDigitRefs() []string {
+	var items []string
+	for _, p := range []string{"&#x", "&#X", "&#"} {
+		hi := "F"
+		if p == "&#" {
+			hi = "9"
+		}
+		for _, f := range []string{"", "1", "7", "8", "9", "F"} {
+			for _, m := range []string{"0", hi} {
+				for k := 0; k <= 40; k++ {
+					for _, l := range []string{"", "6A", "41", "106", "00", "FF"} {
+						for _, sfx := range []string{"", ";", "g"} {
+							items = append(items, p+f+strings.Repeat(m, k)+l+sfx)
+						}
+					}
+				}
+			}
+		}
+	}
+	return items
+}
+
 func evalC19XSS(w *fw.W, val, aux string) {
 	for _, a := range c19URLAttrs {
 		for qi, q := range []string{"", "'", "\""} {
@@ -213,24 +236,7 @@ func init() {
 				}, Eval: evalC19Decode},
 			{Name: "decoder-long-digit-runs", Space: "(&#x | &#X | &#) + first digit in {'',1,7,8,9,F} + 0^k or F^k / 9^k for every k in 0..40 + last digits in {'',6A,41,106,00,FF} + {'', ';', 'g'}: accumulator widths of 32 and 64 bits are crossed", Share: 1,
 				Run: func(w *fw.W) {
-					var items []string
-					for _, p := range []string{"&#x", "&#X", "&#"} {
-						hi := "F"
-						if p == "&#" {
-							hi = "9"
-						}
-						for _, f := range []string{"", "1", "7", "8", "9", "F"} {
-							for _, m := range []string{"0", hi} {
-								for k := 0; k <= 40; k++ {
-									for _, l := range []string{"", "6A", "41", "106", "00", "FF"} {
-										for _, sfx := range []string{"", ";", "g"} {
-											items = append(items, p+f+strings.Repeat(m, k)+l+sfx)
-										}
-									}
-								}
-							}
-						}
-					}
+					items := longDigitRefs()
 					w.Each(len(items), func(i int) { w.Item(items[i], "") })
 				}, Eval: evalC19Decode},
 			{Name: "whitespace-around-equals", Space: "every URL attribute x 4 schemes x 3 quotings x every run of <=2 bytes over {space, NUL, LF, TAB} before and after the '=' (441 combinations), public IsXSS", Share: 1,
